@@ -525,12 +525,16 @@ pub fn c19(out: &mut Out, ex: &mut Exec, seed: u64, thorough: bool) {
                 out.hist.hit("mutated_binary"); format!("bde p {}", hexs(&b)) }
             1 => { // random / hand-shaped binary
                 let mut b = vec![0x6F, 0x62, 0x6A, 0x21, 0x10, 0x00, 0x01];
-                for _ in 0..rng.below(5) { match rng.below(6) {
+                for _ in 0..rng.below(5) { match rng.below(7) {
                     0 => { let a = *rng.pick(&[0u16, 0x3000, 0xFFFE, 0xFFFF, 0xFE00, 0x3001]); let len = *rng.pick(&[0u16, 1, 2, 3]); b.push(0); b.extend(a.to_le_bytes()); b.extend(len.to_le_bytes()); for _ in 0..len { b.push(*rng.pick(&[0xFFu8, 0, 1])); b.extend(rng.u16().to_le_bytes()); } }
                     1 => { let name = *rng.pick(&["A", "", "X", "é", "LONGNAME"]); b.push(1); b.extend(rng.u16().to_le_bytes()); b.push(rng.below(3) as u8); b.extend(rng.pick(&[0u64, 5, u64::MAX, 1 << 40]).to_le_bytes()); b.extend((name.len() as u64).to_le_bytes()); b.extend(name.as_bytes()); }
                     2 => { let len = rng.below(4) as u16; b.push(2); b.extend(rng.pick(&[0u64, 1, 3, u64::MAX, u64::MAX - 1, 1 << 63]).to_le_bytes()); b.extend(len.to_le_bytes()); let mut a = rng.u16(); for _ in 0..len { b.extend(a.to_le_bytes()); a = a.wrapping_add(rng.below(3) as u16); } }
                     3 => { let s = *rng.pick(&["", "a\nb", "x\n\n", "é"]); b.push(3); b.extend((s.len() as u64).to_le_bytes()); b.extend(s.as_bytes()); }
                     4 => { let name = *rng.pick(&["X", "A", "NOBODY", ""]); b.push(4); b.extend(rng.pick(&[0x3001u16, 0x0000, 0xFFFF, 0x2FFF, 0x3003]).to_le_bytes()); b.extend((name.len() as u64).to_le_bytes()); b.extend(name.as_bytes()); }
+                    5 => { // two well-formed line blocks that overlap, touch, or leave a gap (from_blocks must refuse exactly the overlap)
+                        let l0 = *rng.pick(&[0u64, 2, 7]); let d = rng.below(5);
+                        for (ln, n, a0) in [(l0, 3u16, 0x3000u16), (l0 + d, 2u16, 0x4000u16)] { b.push(2); b.extend(ln.to_le_bytes()); b.extend(n.to_le_bytes()); for k in 0..n { b.extend((a0 + k).to_le_bytes()); } }
+                        out.hist.hit(if d < 3 { "line_blocks_overlap" } else if d == 3 { "line_blocks_touch" } else { "line_blocks_apart" }); }
                     _ => { b.push(rng.below(256) as u8); for _ in 0..rng.below(12) { b.push(rng.below(256) as u8); } } } }
                 out.hist.hit("shaped_binary"); format!("bde p {}", hexs(&b)) }
             2 => { // mutated text
